@@ -152,3 +152,14 @@ def rewards_of_leaves(env, tree: Tree, checked=False):
         for i, x in zip(idxs, r):
             out[i] = x
     return out
+
+
+QUOTA_KEYS = ("to_choose", "n_sets_to_choose")
+
+
+def group_sig(td):
+    """Instances that may be stacked into one batch: same tensor shapes / dtypes and, for the selection problems,
+    the same quota (the generators give every row of a batch the same quota; mixed quotas are not a documented input)."""
+    sig = tuple((k, tuple(v.shape[1:]), str(v.dtype)) for k, v in sorted(td.items()))
+    quota = tuple((k, tuple(td[k].reshape(-1).tolist())) for k in QUOTA_KEYS if k in td.keys())
+    return sig + quota
